@@ -20,6 +20,7 @@ import (
 	"runtime"
 	"sync"
 	"sync/atomic"
+	"syscall"
 )
 
 type (
@@ -53,21 +54,37 @@ type Controller interface {
 var Global Controller
 
 var (
-	bound  sync.Map // goroutine id -> Controller
+	bound  sync.Map // OS thread id of a goroutine locked to its thread -> Controller
 	nBound atomic.Int64
 )
 
-// Bind attaches c to the calling goroutine until Unbind.
+// Bind attaches c to the calling goroutine until Unbind.  The goroutine is locked to its
+// OS thread meanwhile, so that the thread id identifies it (a cheap goroutine-local).
 func Bind(c Controller) {
-	bound.Store(goid(), c)
+	runtime.LockOSThread()
+	bound.Store(syscall.Gettid(), c)
 	nBound.Add(1)
 }
 
 // Unbind detaches the calling goroutine's controller.
 func Unbind() {
-	bound.Delete(goid())
+	bound.Delete(syscall.Gettid())
 	nBound.Add(-1)
+	runtime.UnlockOSThread()
 }
+
+// Passthrough, when bound, makes the calling goroutine use the real sync primitives.
+// A goroutine that uses pools while other goroutines have controllers bound must itself be
+// bound (to a controller or to Passthrough): the thread id of an unlocked goroutine is stale
+// by the time it is looked up.
+var Passthrough Controller = passthrough{}
+
+type passthrough struct{}
+
+func (passthrough) PoolGet(p *Pool) (any, bool) { panic("unreachable") }
+func (passthrough) PoolPut(p *Pool, x any)      { panic("unreachable") }
+func (passthrough) Lock(m *Mutex)               { panic("unreachable") }
+func (passthrough) Unlock(m *Mutex)             { panic("unreachable") }
 
 func current() Controller {
 	if g := Global; g != nil {
@@ -76,25 +93,13 @@ func current() Controller {
 	if nBound.Load() == 0 {
 		return nil
 	}
-	if c, ok := bound.Load(goid()); ok {
+	if c, ok := bound.Load(syscall.Gettid()); ok {
+		if c == Passthrough {
+			return nil
+		}
 		return c.(Controller)
 	}
 	return nil
-}
-
-func goid() uint64 {
-	var buf [64]byte
-	n := runtime.Stack(buf[:], false)
-	// "goroutine 123 ["
-	var id uint64
-	for i := len("goroutine "); i < n; i++ {
-		c := buf[i]
-		if c < '0' || c > '9' {
-			break
-		}
-		id = id*10 + uint64(c-'0')
-	}
-	return id
 }
 
 // Pool mirrors sync.Pool.
